@@ -102,4 +102,33 @@ func New$1
   requires w != nil
   modifies w.shutdownSignal
   ensures w.shutdownSignal != nil
+
+-- the dispatcher goroutine: it stops dispatching only when the pool is not running AND the queue is empty - whatever the
+-- shutdown options are (queued tasks are cancelled by the workers, which only see what went through the dispatcher) -
+-- and every life of the pool gets a new, open dispatch channel (the previous one was closed by the previous dispatcher)
+global lastrun Bool      -- what IsRunning said when the dispatcher last evaluated its loop condition (ghost)
+global lastsize Int      -- what Queue.Size said then (ghost)
+
+-- the queue and the pending counter are not part of this claim (C17): assumed not to touch the pool
+assume-func github.com/iotaledger/hive.go/runtime/syncutils.Stack.PopOrWait(b, waitCondition) (element, success)
+  requires b != nil
+assume-func github.com/iotaledger/hive.go/runtime/syncutils.Stack.Size(b) (r)
+  requires b != nil
+  ensures r >= 0
+assume-func github.com/iotaledger/hive.go/runtime/syncutils.Counter.WaitIsZero(c)
+  requires c != nil
+
+func WorkerPool.dispatcher
+  opt thread
+  requires w != nil && w.Queue != nil && w.PendingTasksCounter != nil && w.dispatcherChan != nil && !closed(w.dispatcherChan) && unlocked(w.mutex)
+  modifies chans, ghost(lastrun), ghost(lastsize)
+  loop 1 invariant unlocked(w.mutex) && !closed(w.dispatcherChan)
+  ghost after call WorkerPool.IsRunning: lastrun = result
+  ghost after call Stack.Size: lastsize = result
+  ghost before call Counter.WaitIsZero: assert !lastrun && lastsize == 0
+
+func WorkerPool.startDispatcher
+  requires w != nil && w.Queue != nil && w.PendingTasksCounter != nil && unlocked(w.mutex)
+  modifies w.dispatcherChan, chans
+  ensures w.dispatcherChan != nil && !closed(w.dispatcherChan)
 @*/
